@@ -23,7 +23,7 @@ use serde_json::json;
 
 use crate::alloc::measure;
 use crate::corpus::*;
-use crate::exec::catch;
+use crate::exec::{catch, Outcome};
 use crate::node::*;
 use crate::report::{par_map, workers, Report, Tier};
 use crate::seams::{key, MemIO};
@@ -36,8 +36,14 @@ fn d_message(b: &[u8]) -> bool {
 fn d_block(b: &[u8]) -> bool {
     match Block::deserialize_from_net(b) {
         Ok(mut blk) => {
-            // every decoded block is generate()d before anything else looks at it
-            let _ = blk.generate();
+            // every decoded block is generate()d before anything else looks at it; a block that
+            // passes generate() has its golden-ticket payload decoded by the next stages
+            // (consensus values, validation, the pool's bookkeeping) without a further guard
+            if blk.generate().is_ok() {
+                for t in blk.transactions.iter().filter(|t| t.transaction_type == TransactionType::GoldenTicket) {
+                    let _ = saito_core::core::consensus::golden_ticket::GoldenTicket::deserialize_from_net(&t.data);
+                }
+            }
             let _ = blk.serialize_for_net(BlockType::Full);
             true
         }
@@ -311,7 +317,7 @@ pub fn child(tier: Tier) -> i32 {
     rep.rule = "for every base encoding of every decoder: all prefixes, every 1/2/4-byte window set to 00/FF, boundary values (0,1,actual+-1,255,256,65535,65536,2^31-1,2^31,2^32-1) on every count/length/tag field, all 256 values of tag and type bytes; all strings of length <= 3 under every message tag; distinct = distinct (decoder, input) pairs; oracle: returns Ok/Err, no panic, peak allocation <= 64*len + 1 MiB".into();
     rep.bounds = json!({"decoders": bs.iter().map(|b| b.dec).collect::<std::collections::BTreeSet<_>>(), "bases": bs.len()});
     rep.assumptions = vec![
-        "GoldenTicket::deserialize_from_net and ApiMessage::deserialize are only reachable behind the length guards of their callers (Transaction::validate / Block::generate / Message::deserialize), which are the swept entry points".into(),
+        "GoldenTicket::deserialize_from_net and ApiMessage::deserialize are only reachable behind the length guards of their callers (Transaction::validate / Block::generate / Message::deserialize): a block that passes generate() has its golden-ticket payloads decoded in the sweep, and every payload length 0..=300 is sent through the verification thread, the pool and add_block".into(),
         "window and prefix sweeps are exhaustive for the first 700 bytes of an encoding in the quick tier (whole encoding in the thorough tier)".into(),
     ];
     let results = par_map(&bs, workers(), |_, b| {
@@ -361,6 +367,7 @@ pub fn child(tier: Tier) -> i32 {
         }
     }
     rep.outcome_n("short-strings", ss.len() as u64);
+    nested_payloads(&mut rep);
     // distinct = evaluated inputs (each derived input is distinct per construction within a base)
     let n = rep.evaluations;
     for i in 0..n.min(5) {
@@ -369,6 +376,97 @@ pub fn child(tier: Tier) -> i32 {
     rep.extra.insert("inputs".into(), json!(n));
     rep.sample(json!({"decoder": "transaction", "base": "shape0", "mutations": ["prefix93", "win8w4=ff", "field12=00010000", "byte92=9"]}));
     rep.finish()
+}
+
+/// Nested decoders through their callers: the golden-ticket payload of a transaction is decoded
+/// by an infallible function that its callers guard by length. Every payload length 0..=300 is
+/// sent (a) as a properly signed golden-ticket transaction through the verification thread and,
+/// when it is passed on, into the pool, and (b) inside a block that is re-signed by its creator,
+/// through Blockchain::add_block on a node standing at the parent. Neither may abort.
+fn nested_payloads(rep: &mut Report) {
+    use crate::factory::World;
+    let mut w = World::standard(10);
+    let miner = key(0);
+    let b2 = match w.honest_child(0, 0, "N2") {
+        Ok(b) => b,
+        Err(e) => {
+            rep.machinery(format!("nested payloads: {}", e));
+            return;
+        }
+    };
+    let ts3 = w.child_ts(b2, 0);
+    let pay: Vec<Transaction> = w.payment(b2, &key(1), &key(2).public, 700, 0, ts3).into_iter().collect();
+    let b3 = match w.build(b2, ts3, Some(miner), pay, "N3") {
+        Ok(b) => b,
+        Err(e) => {
+            rep.machinery(format!("nested payloads: {}", e));
+            return;
+        }
+    };
+    let honest = decode_block(&w.blocks[b3].bytes);
+    let Some(gi) = honest.transactions.iter().position(|t| t.transaction_type == TransactionType::GoldenTicket) else {
+        rep.machinery("nested payloads: the base block has no golden ticket".into());
+        return;
+    };
+    let orig = honest.transactions[gi].data.clone();
+    let lens: Vec<usize> = (0..=300).collect();
+    let results = par_map(&lens, workers(), |_, &len| {
+        let mut r = rep.child();
+        let mut data = orig.clone();
+        data.resize(len, 0xA5);
+        // (a) transaction path
+        let mut tx = honest.transactions[gi].clone();
+        tx.data = data.clone();
+        tx.sign(&miner.private);
+        if let Ok(n) = w.node_at(b2, key(9)) {
+            r.evaluations += 1;
+            let (mut v, mut rx, _s) = super::c01::verifier(&n);
+            let t2 = tx.clone();
+            let o = crate::exec::run(async {
+                v.verify_tx(t2).await;
+            });
+            let passed = rx.try_recv().is_ok();
+            match o {
+                Outcome::Done(()) => {
+                    if passed {
+                        let mp = n.mempool.clone();
+                        let t3 = tx.clone();
+                        match crate::exec::run(async move {
+                            let mut m = mp.write().await;
+                            m.add_golden_ticket(t3).await;
+                        }) {
+                            Outcome::Done(()) => r.outcome("nested:gt-tx-passed-on-and-pooled"),
+                            o => r.violate(&format!("panic/nested-golden-ticket-payload/pool/{}", if len < 97 { "shorter" } else { "longer" }), format!("payload of {} bytes: {}", len, o.label()), json!({"len": len, "tx": hex::encode(tx.serialize_for_net())})),
+                        }
+                    } else {
+                        r.outcome("nested:gt-tx-refused");
+                    }
+                }
+                o => r.violate(&format!("panic/nested-golden-ticket-payload/verify_tx/{}", if len < 97 { "shorter" } else { "longer" }), format!("payload of {} bytes: {}", len, o.label()), json!({"len": len, "tx": hex::encode(tx.serialize_for_net())})),
+            }
+        }
+        // (b) block path
+        let mut blk = honest.clone();
+        blk.transactions[gi] = tx.clone();
+        blk.created_hashmap_of_slips_spent_this_block = false;
+        blk.slips_spent_this_block.clear();
+        blk.merkle_root = blk.generate_merkle_root(false, false);
+        blk.sign(&w.creator.private);
+        let _ = blk.generate();
+        let bytes = block_bytes(&blk);
+        if let Ok(mut n) = w.node_at(b2, key(9)) {
+            r.evaluations += 1;
+            match n.add_block_bytes(&bytes) {
+                Outcome::Done(res) => r.outcome(&format!("nested:gt-in-block:{:?}", res)),
+                o => r.violate(&format!("panic/nested-golden-ticket-payload/add_block/{}", if len < 97 { "shorter" } else { "longer" }), format!("payload of {} bytes in a re-signed block: {}", len, o.label()), json!({"len": len, "block": hex::encode(&bytes)})),
+            }
+        }
+        r.distinct.insert(format!("nested-gt-len{}", len));
+        r
+    });
+    for r in results {
+        rep.merge(r);
+    }
 }
 
 pub fn main(tier: Tier, _replay: Option<String>) -> i32 {
